@@ -69,3 +69,21 @@ package clip
 //@   requires forall k :: 0 <= k && k < len(opts) ==> opts[k] != nil
 //@   opt funcsPreserve=S:orb.Point,S:orb.LineString,S:clip.Option
 //@   loop 1: invariant forall k :: 0 <= k && k < len(opts) ==> opts[k] != nil
+//@   loop 2: exit rangeindex + 1 >= len(mls)
+
+// ---------------------------------------------------------------- the per-member wrappers visit every member
+// the outer ring decides; after that every hole / polygon / member is clipped: the loops are left only
+// when the index has passed the last element
+//@ func Polygon(b, p)
+//@   ensures len(p) == 0 ==> result == nil
+//@   ensures result != nil ==> len(result) >= 1 && len(result) <= len(p)
+//@   loop 1: invariant 1 <= i && i <= len(p) && len(result) >= 1 && len(result) <= i
+//@   loop 1: exit i >= len(p)
+//@ func MultiPolygon(b, mp)
+//@   ensures len(result) <= len(mp)
+//@   loop 1: invariant -1 <= rangeindex && rangeindex < len(mp) && len(result) <= rangeindex + 1
+//@   loop 1: exit rangeindex + 1 >= len(mp)
+//@ func Collection(b, c)
+//@   ensures len(result) <= len(c)
+//@   loop 1: invariant -1 <= rangeindex && rangeindex < len(c) && len(result) <= rangeindex + 1
+//@   loop 1: exit rangeindex + 1 >= len(c)
